@@ -11,7 +11,6 @@ import (
 
 	"github.com/formancehq/numscript"
 	"github.com/formancehq/numscript/internal/interpreter"
-	"github.com/formancehq/numscript/internal/parser"
 )
 
 func renderProgram(prog *GProgram, layout int, r *Rand) string {
@@ -240,7 +239,7 @@ func init() {
 						o2 = &oo
 					}
 				}
-				pr := parser.Parse(sc.Text)
+				pr := parseSafe(sc.Text)
 				sec := "None"
 				if o2 != nil {
 					sec = "(Some " + coqObserved(*o2, nil) + ")"
@@ -321,7 +320,7 @@ func init() {
 				}
 				short += storeKindCoq[k] + ": " + shortObserved(o) + " | "
 			}
-			pr := parser.Parse(sc.Text)
+			pr := parseSafe(sc.Text)
 			ci := sc.info("c10case")
 			ci.Class = class
 			ci.Observed = short
@@ -445,7 +444,7 @@ func (c *Ctx) c11Case(sc Scenario) {
 				same = true // a crash is judged elsewhere
 			}
 		}()
-		pr := parser.Parse(sc.Text)
+		pr := parseSafe(sc.Text)
 		if len(pr.Errors) != 0 {
 			return true
 		}
@@ -501,7 +500,7 @@ func (c *Ctx) c11Case(sc Scenario) {
 	ci.Observed = shortObserved(o1)
 	ci.extra(map[string]any{"second_run": shortObserved(o2), "inputs_unchanged": unchanged, "flag_on": shortObserved(on), "flag_off": shortObserved(off),
 		"concurrent_same": same, "race_free": raceFree})
-	pr := parser.Parse(sc.Text)
+	pr := parseSafe(sc.Text)
 	ic := fmt.Sprintf("(mk_icase %s %s %s %s SKStatic None %s %s)", sc.treeOf(pr), coqVars(sc.Vars), coqBalances(sc.Bal), coqMeta(sc.Meta), coqBool(sc.Flag), coqObserved(o1, logged.log))
 	ci.Coq = fmt.Sprintf("(mk_c11case %s %s %s %s %s %s %s %s)", ic, coqObserved(o2, nil), coqBool(unchanged), coqObserved(on, nil), coqObserved(off, nil), coqBool(usesFn), coqBool(same), coqBool(raceFree))
 	c.add(ci)
